@@ -845,37 +845,39 @@ def inputCost : List Nat → Nat
   | [] => 0
   | c :: rest => runeCost c + inputCost rest
 
-/-- Weight of a frame on the stack. -/
+/-- Weight of a frame (in `rsNext` or on the stack). -/
 def Cont.weight : Cont → Nat
-  | .statement => 1
-  | .triplesBlockQuest => 1
-  | .collOpenSubj _ => 10
-  | .tgE1 _ | .tgBracket _ | .parenTop _ | .parenBlock _ | .graphAnonClose => 24
+  | .statement | .subjIRIREF | .subjPName | .subjBNode | .objectPName => 1
+  | .triplesBlockQuest => 3
+  | .parenTop _ | .parenBlock _ => 16
+  | .tgE1 _ | .triples2BNPL | .subjAnonOrBNPL => 12
+  | .tgBracket _ => 18
   | _ => 2
 
-/-- Weight of the frame `Next` holds in `rsNext`. Scan functions that are only ever returned (never
-    pushed) and that make progress at once are lighter than the `8` an empty `rsNext` costs. -/
-def Cont.curWeight : Cont → Nat
-  | .subjIRIREF | .subjPName | .subjBNode | .objectPName => 1
-  | .triples => 2
-  | .triplesBlock => 5
-  | .collOpenSubj _ => 7
-  | k => 8 + k.weight
+/-- Scan functions that, whatever they are called with, consume a rune, fail, or hand over to such
+    a function without pushing anything: no surcharge while they are the next to run. -/
+def Cont.ready : Cont → Bool
+  | .subjIRIREF | .subjPName | .subjBNode | .object | .objectPName | .triples => true
+  | _ => false
 
-def curCost : Option Frame → Nat
-  | none => 8
-  | some f => f.k.curWeight
-
-def stackCost : List Frame → Nat
+def framesCost : List Frame → Nat
   | [] => 0
-  | f :: s => f.k.weight + stackCost s
+  | f :: s => f.k.weight + framesCost s
 
-def St.cost (st : St) : Nat := inputCost st.inp + stackCost st.stack + 16 * st.stmts.length
+/-- surcharge for the frame that runs next (`rsNext`, else the top of the stack) -/
+def readyCost : List Frame → Nat
+  | [] => 0
+  | f :: _ => if f.k.ready then 0 else 40
+
+def potential (cur : Option Frame) (st : St) : Nat :=
+  inputCost st.inp + framesCost (cur.toList ++ st.stack) + readyCost (cur.toList ++ st.stack) + st.stmts.length
+
+def St.cost (st : St) : Nat := potential none st
 
 /-- `Next()`. The fuel is the potential of the state; `next_fuel` proves it suffices. -/
 def next (C : Cfg) (e : End) (st : St) : NextRes :=
   let st0 := { st with stmts := st.stmts.drop 1 }
-  nextLoop C e (st0.cost + 10) none st0
+  nextLoop C e (st0.cost + 1) none st0
 
 inductive Verdict where
   | clean
@@ -904,6 +906,6 @@ def init (base : Option (List Nat)) (prefixes : List (List Nat × List Nat)) (in
 def run (C : Cfg) (e : End) (base : Option (List Nat)) (prefixes : List (List Nat × List Nat))
     (inp : List Nat) : List Stmt × Verdict :=
   let st := init base prefixes inp
-  runLoop C e (st.cost + 2) st
+  runLoop C e (st.cost + 1) st
 
 end RdfModel.TtlDoc
